@@ -204,13 +204,15 @@ func c08(c *Ctx) {
 			bad := false
 			nret := 0
 			for _, ret := range reach.Returns() {
-				nret++
-				call, _ := an.ResultOfCall(ret.Results[0])
-				if call == nil || an.ShortCallee(&call.Call) != "NewStatus" || an.Path(call.Call.Args[0]) != "2" {
-					bad = true
+				for _, v := range reach.Values(ret.Results[0]) {
+					nret++
+					call, _ := an.ResultOfCall(v)
+					if call == nil || an.ShortCallee(&call.Call) != "NewStatus" || an.Path(call.Call.Args[0]) != "2" {
+						bad = true
+					}
 				}
 			}
-			r.Check(!bad && nret == 1, "PATH", fkey(fn)+"/exceed=>reject", c.InstrPos(cmp), "an exceeded threshold always rejects the node", "after usage > threshold a return other than Unschedulable is reachable")
+			r.Check(!bad && nret >= 1, "PATH", fkey(fn)+"/exceed=>reject", c.InstrPos(cmp), "an exceeded threshold always rejects the node", "after usage > threshold a return other than Unschedulable is reachable")
 			pu, pv := an.Path(cmp.X), an.Path(cmp.Y)
 			ok := strings.Contains(pu, "estimatedUsed[") && strings.Contains(pu, "allocatable[") && strings.Contains(pv, "usageThresholds")
 			r.Check(ok, "FLOW", fkey(fn)+"/operands", c.InstrPos(cmp), "usage(estimated/allocatable) is compared with the threshold of the same resource", "comparison operands changed: "+pu+" <= "+pv)
